@@ -443,6 +443,23 @@ theorem accepted_state_tracks_running {limit nd : Nat} {reserve : Bool} {evs : L
     rw [hr] at this
     exact this.2
 
+/-! ## 6. Collecting: a panic in a blocking job reaches its submitter on every path -/
+
+/-- **for every collection path**, a job that panicked with payload `p` makes the collector observe
+`unwind p` — never a value, never an `Err` -/
+theorem panic_reaches_every_collector (path : CollectPath) (p : Nat) :
+    collect path (catchUnwindIo (.panicked p)) = .unwind p := rfl
+
+/-- values and io errors come back unchanged on every path -/
+theorem value_and_error_reach_every_collector (path : CollectPath) (v c : Nat) :
+    collect path (catchUnwindIo (.ok v)) = .value v ∧ collect path (catchUnwindIo (.err c)) = .error c :=
+  ⟨rfl, rfl⟩
+
+/-- the collector unwinds exactly when the job panicked, with the job's payload -/
+theorem collector_unwinds_iff_job_panicked (path : CollectPath) (r : JobResult) (p : Nat) :
+    collect path (catchUnwindIo r) = .unwind p ↔ r = .panicked p := by
+  cases r <;> simp [collect, catchUnwindIo, resumeUnwindIo]
+
 /-! ## non-vacuity -/
 
 /-- a schedule in which two jobs are accepted, run and delivered (one by `try_send` to the parked worker) -/
